@@ -952,3 +952,319 @@ def render_partitioned(r, iface, rng, location="http://svc.invalid/endpoint", sc
               "suds://decoy.wsdl": definitions(r, iface, "urn:decoy", "")}
     plan["documents"] = sorted(docs)
     return docs, root_url, plan, decoys
+
+
+
+
+# ---------------------------------------------------------------- the reference: replies
+
+def out_params(iface, op):
+    """The (member-like) definitions the reply's top-level nodes are matched against, with the
+    namespace each carries, as [(member, ns)]."""
+    ns0 = iface["namespaces"][0]
+    if op["style"] == "wrapped":
+        return [(p, ns0["uri"] if (p["form"] or ns0["form"]) == "qualified" else None) for p in op["out"]]
+    if op["style"] == "bare":
+        return [(dict(p, name="%s_%s" % (op["name"], p["name"])), ns0["uri"]) for p in op["out"]]
+    return [(p, None) for p in op["out"]]
+
+
+def top_value(p, outvals):
+    """('absent',) | ('nil',) | ('one', v) | ('many', [v...]) for a top-level reply member."""
+    if p["name"] not in outvals:
+        return ("absent",)
+    v = outvals[p["name"]]
+    if isinstance(v, list):
+        return ("many", v) if v else ("absent",)
+    if v is None:
+        return ("nil",) if p["nillable"] else ("absent",)
+    return ("one", v)
+
+
+def spec_reply_nodes(iface, op, outvals):
+    """Body content (list of spec nodes) of a reply carrying `outvals` (dict out-param name -> value)."""
+    nodes = []
+    se = spec_element_enc if op["style"] == "rpcenc" else spec_element
+    for (p, ns), orig in zip(out_params(iface, op), op["out"]):
+        tv = top_value(orig, outvals)
+        if tv[0] == "many":
+            for item in tv[1]:
+                nodes.append(se(iface, p["name"], ns, p["type"], item, orig["nillable"], True))
+        elif tv[0] == "one":
+            nodes.append(se(iface, p["name"], ns, p["type"], tv[1], False, True))
+        elif tv[0] == "nil":
+            nodes.append(se(iface, p["name"], ns, p["type"], None, True, True))
+    if op["style"] == "wrapped":
+        return [{"name": [iface["namespaces"][0]["uri"], op["name"] + "Response"], "attrs": [], "text": "", "children": nodes}]
+    if op["style"] == "bare":
+        return nodes
+    return [{"name": [rpc_ns(iface), op["name"] + "Response"], "attrs": [], "text": "", "children": nodes}]
+
+
+def decoded(iface, ttype, value):
+    """Normal form of the Python data a reply value denotes: dicts for objects (with '__class__'),
+    lists for repeating members, None for nil."""
+    if value is None:
+        return None
+    if ttype[0] == "b":
+        return value
+    if ttype[0] == "a":
+        return [decoded(iface, iface["arrays"][ttype[1]], x) for x in value["__array__"]]
+    key = ttype[1]
+    real = value.get("__type__", key)
+    out = {"__class__": real[1]}
+    for a, _ in attrs_of(iface, real):
+        if "_" + a["name"] in value and value["_" + a["name"]] is not None:
+            out["_" + a["name"]] = value["_" + a["name"]]
+    for m, _, in_choice in members_of(iface, real):
+        if m["name"] not in value:
+            continue
+        v = value[m["name"]]
+        if v is None and not m["nillable"]:
+            continue
+        if m["max"] == "unbounded":
+            if not isinstance(v, list):
+                v = [v]
+            if v:
+                out[m["name"]] = [decoded(iface, m["type"], x) for x in v]
+        else:
+            out[m["name"]] = decoded(iface, m["type"], v)
+    return out
+
+
+def unwraps_out(op):
+    ps = op["out"]
+    return op["style"] == "bare" and len(ps) == 1 and ps[0]["type"][0] == "c"
+
+
+def spec_result(iface, op, outvals):
+    """The value an invocation returns for a reply carrying outvals."""
+    outs = op["out"]
+    names = [p["name"] for p, _ in out_params(iface, op)]
+    n_types = len(outs)
+    if unwraps_out(op):
+        # suds treats a single-part document/literal message with a complex element as a wrapper:
+        # the reply is the wrapper's content, one value per member
+        key = outs[0]["type"][1]
+        outvals = outvals.get(outs[0]["name"]) or {}
+        outs = [m for m, _, _ in members_of(iface, key)]
+        names = [m["name"] for m in outs]
+        n_types = len(outs) + len(attrs_of(iface, key))
+    def one(p):
+        v = outvals.get(p["name"])
+        if p["max"] == "unbounded":
+            if v is None:
+                v = []
+            return [decoded(iface, p["type"], x) for x in v]
+        return decoded(iface, p["type"], v)
+    if n_types == 0:
+        return None
+    if n_types == 1:
+        return one(outs[0])
+    comp = {"__class__": "reply"}
+    for p, q in zip(outs, names):
+        if top_value(p, outvals)[0] == "absent":
+            continue
+        comp[q] = one(p)
+    return comp
+
+
+def gen_outvals(rng, iface, op, nil_in_lists=False):
+    out = {}
+    for p in op["out"]:
+        v = gen_member_value(rng, iface, p, 0)
+        if v is None and (p["min"] == 0 and rng.random() < 0.5):
+            continue     # absent
+        if v is None and op["style"] != "wrapped":
+            v = gen_value(rng, iface, p["type"], 1)
+        if unwraps_out(op):
+            v = gen_value(rng, iface, p["type"], 1, allow_derived=False)
+            v = {k: x for k, x in v.items() if not k.startswith("_")}
+        out[p["name"]] = v
+    return out
+
+
+# ---------------------------------------------------------------- independent writer
+
+class Presentation:
+    def __init__(self, rng, soap12=False, default_ns=0.3, shadow=0.3, cdata=0.2, charref=0.3, comments=0.2,
+                 whitespace=0.5, fresh=0.4):
+        self.rng = rng
+        self.soap12 = soap12
+        self.default_ns = default_ns
+        self.shadow = shadow
+        self.cdata = cdata
+        self.charref = charref
+        self.comments = comments
+        self.whitespace = whitespace
+        self.fresh = fresh
+        self.counter = 0
+
+
+def plain_presentation(rng):
+    return Presentation(rng, default_ns=0, shadow=0, cdata=0, charref=0, comments=0, whitespace=0, fresh=0)
+
+
+def _esc_text(pr, s):
+    rng = pr.rng
+    if s and rng.random() < pr.cdata and "]]>" not in s:
+        k = rng.randint(0, len(s))
+        return _esc_plain(pr, s[:k]) + "<![CDATA[" + s[k:] + "]]>"
+    return _esc_plain(pr, s)
+
+
+def _esc_plain(pr, s):
+    out = []
+    for ch in s:
+        if ch in "<&>" or (pr.rng.random() < pr.charref * 0.3):
+            if ch in "<&>" and pr.rng.random() > pr.charref:
+                out.append({"<": "&lt;", "&": "&amp;", ">": "&gt;"}[ch])
+            else:
+                out.append(pr.rng.choice(["&#%d;" % ord(ch), "&#x%x;" % ord(ch)]))
+        else:
+            out.append(ch)
+    return "".join(out)
+
+
+def _esc_attr(pr, s):
+    out = []
+    for ch in s:
+        if ch in '<&>"':
+            out.append({"<": "&lt;", "&": "&amp;", ">": "&gt;", '"': "&quot;"}[ch] if pr.rng.random() > pr.charref
+                       else "&#%d;" % ord(ch))
+        elif ch in "\t\n\r":
+            out.append("&#%d;" % ord(ch))
+        else:
+            out.append(ch)
+    return "".join(out)
+
+
+def _prefix_for(pr, scope, uri, decls, allow_default):
+    """Pick a prefix (None = default namespace) that denotes uri, declaring it when needed."""
+    rng = pr.rng
+    cands = [p for p, u in scope.items() if u == uri and (p is not None or allow_default)]
+    if cands and rng.random() > pr.fresh:
+        return rng.choice(sorted(cands, key=lambda x: x or ""))
+    if allow_default and rng.random() < pr.default_ns and not any(d.startswith("xmlns=") for d in decls):
+        scope[None] = uri
+        decls.append('xmlns="%s"' % uri)
+        return None
+    if rng.random() < pr.shadow and scope:
+        others = sorted(p for p in scope if p is not None and p not in ("xml",) and scope[p] != uri)
+        if others:
+            p = rng.choice(others)
+            if not any(d.startswith('xmlns:%s=' % p) for d in decls):
+                scope[p] = uri
+                decls.append('xmlns:%s="%s"' % (p, uri))
+                return p
+    pr.counter += 1
+    p = rng.choice(["q", "ns", "a", "tns", "x"]) + str(pr.counter)
+    scope[p] = uri
+    decls.append('xmlns:%s="%s"' % (p, uri))
+    return p
+
+
+def write_node(pr, node, scope, lexical_of=None):
+    rng = pr.rng
+    scope = dict(scope)
+    decls = []
+    ns, name = node["name"]
+    if ns is None:
+        if scope.get(None) is not None:
+            scope[None] = None
+            decls.append('xmlns=""')
+        qn = name
+    else:
+        p = _prefix_for(pr, scope, ns, decls, True)
+        qn = name if p is None else "%s:%s" % (p, name)
+    attrs = []
+    # attributes are resolved after the element's own choice so shadowing cannot hit the element name
+    used = {qn.split(":")[0]} if ":" in qn else set()
+    for k, v in node["attrs"]:
+        ans, an = k
+        if ans is None:
+            aq = an
+        else:
+            while True:
+                ap = _prefix_for(pr, scope, ans, decls, False)
+                if scope.get(ap) == ans:
+                    break
+            aq = "%s:%s" % (ap, an)
+            used.add(ap)
+        if isinstance(v, dict):
+            tns, tname = v["qname"]
+            tp = _prefix_for(pr, scope, tns, decls, True)
+            val = tname if tp is None else "%s:%s" % (tp, tname)
+        elif isinstance(v, tuple):
+            val = lexical(v[1], v[2])
+        else:
+            val = v
+        attrs.append((aq, val, ans))
+    # shadowing chosen later may have rebound a prefix already used on this element: re-validate
+    def bound(q, uri, is_attr):
+        if ":" in q:
+            return scope.get(q.split(":")[0]) == uri
+        return is_attr or scope.get(None) == uri
+    if not bound(qn, ns, False) or not all(bound(a[0], a[2], True) for a in attrs):
+        return write_node(plain_presentation(rng), node, {k: v for k, v in scope.items() if k in ("xml",)} , lexical_of)
+    for a in attrs:
+        if isinstance(node["attrs"][attrs.index(a)][1], dict):
+            tns, tname = node["attrs"][attrs.index(a)][1]["qname"]
+            if not bound(a[1], tns, False):
+                return write_node(plain_presentation(rng), node, {"xml": scope.get("xml")}, lexical_of)
+    head = "<" + qn + "".join(" " + d for d in decls) + "".join(' %s="%s"' % (a[0], _esc_attr(pr, a[1])) for a in attrs)
+    t = node["text"]
+    if isinstance(t, tuple):
+        t = lexical(t[1], t[2])
+    if not node["children"] and t == "":
+        if rng.random() < 0.5:
+            return head + "/>"
+        return head + "></" + qn + ">"
+    def ws():
+        return rng.choice(["", "\n", "  ", "\n\t"]) if rng.random() < pr.whitespace else ""
+    def cm():
+        return "<!-- c -->" if rng.random() < pr.comments else ""
+    if node["children"]:
+        inner = ws() + cm()
+        for c in node["children"]:
+            inner += write_node(pr, c, scope, lexical_of) + ws() + cm()
+        return head + ">" + inner + "</" + qn + ">"
+    body = _esc_text(pr, t)
+    if rng.random() < pr.comments and len(t) > 1:
+        k = rng.randint(1, len(t) - 1)
+        body = _esc_text(pr, t[:k]) + "<!--x-->" + _esc_text(pr, t[k:])
+    return head + ">" + body + "</" + qn + ">"
+
+
+def write_envelope(pr, body_nodes):
+    envns = "http://www.w3.org/2003/05/soap-envelope" if pr.soap12 else ENV
+    env = {"name": [envns, "Envelope"], "attrs": [], "text": "", "children": [
+        {"name": [envns, "Body"], "attrs": [], "text": "", "children": body_nodes}]}
+    if pr.rng.random() < 0.3:
+        env["children"].insert(0, {"name": [envns, "Header"], "attrs": [], "text": "", "children": []})
+    head = pr.rng.choice(['<?xml version="1.0" encoding="UTF-8"?>', "", '<?xml version="1.0"?>\n'])
+    return (head + write_node(pr, env, {"xml": "http://www.w3.org/XML/1998/namespace"})).encode("utf-8")
+
+
+# ---------------------------------------------------------------- the reference: factory objects
+
+def spec_skeleton(iface, key, path=()):
+    """What factory.create(type) holds: every member of the content model in schema order (inherited
+    first), [] for repeating members, a pre-built object for a required complex member, None for optional
+    members and leaves, nothing for choice branches; attributes under '_' names with their default."""
+    out = {"__class__": key[1]}
+    for a, _ in attrs_of(iface, key):
+        out["_" + a["name"]] = a["default"]
+    for m, decl, in_choice in members_of(iface, key):
+        if in_choice:
+            continue
+        ident = (decl, m["name"])
+        if ident in path:
+            continue            # recursion cut-off
+        if m["max"] == "unbounded":
+            out[m["name"]] = []
+        elif m["type"][0] == "b" or m["min"] == 0:
+            out[m["name"]] = None
+        else:
+            out[m["name"]] = spec_skeleton(iface, m["type"][1], path + (ident,))
+    return out
